@@ -53,7 +53,7 @@ def canon(rng_):
     return 'G ' + ' '.join(''.join(repr(c) for c in l) for l in sets)
 
 
-ORDERS = {'std': 'STANDARD', 'short': 'SHORT_DECK_HOLDEM'}
+ORDERS = {'std': 'STANDARD', 'short': 'SHORT_DECK_HOLDEM', 'regular': 'REGULAR', 'eight': 'EIGHT_OR_BETTER_LOW'}
 
 
 def py_range(text, order):
